@@ -1,20 +1,13 @@
-"""C18 repro 1: `bgp-prefix-sid [ ]` (or any bgp-prefix-sid list that is not closed the way the parser expects) never returns:
-static.mpls.prefix_sid loops on tokeniser() which answers '' for ever once the words are used up.
-The API command `announce route 10.0.0.0/24 next-hop 1.2.3.4 bgp-prefix-sid [ ]` blocks the reactor for good."""
-import os, signal, sys
-os.environ['exabgp_log_enable'] = 'false'
-from exabgp.configuration.configuration import Configuration
-
-def alarm(*_):
-    print('HANG: Configuration.partial did not return within 5 s for %r' % text)
-    sys.exit(1)
-
-signal.signal(signal.SIGALRM, alarm)
-for text in ('route 10.0.0.0/24 next-hop 1.2.3.4 bgp-prefix-sid [ 5 ]',              # fine
-             'route 10.0.0.0/24 next-hop 1.2.3.4 bgp-prefix-sid [ 5 , [ ( 1 , 2 ) ] ]',  # fine
-             'route 10.0.0.0/24 next-hop 1.2.3.4 bgp-prefix-sid [ ]'):
-    signal.alarm(5)
-    cfg = Configuration([])
-    ok = cfg.partial('static', text)
-    signal.alarm(0)
-    print(text, '->', 'accepted' if ok else 'refused: %s' % cfg.error)
+"""bgp-prefix-sid (configuration/static/mpls.py prefix_sid, prefix_sid_srv6): never returns, UnboundLocalError, struct.error, a label
+index the wire cannot hold silently dropped, bare Exception for a syntax error"""
+from repro_common import run, R, not_refused, crashes
+run([
+    ('static', R + 'bgp-prefix-sid [ 5 ]', crashes, {}),                                    # fine
+    ('static', R + 'bgp-prefix-sid [ ]', not_refused, {}),                                  # loops for ever on the exhausted tokeniser
+    ('static', R + 'bgp-prefix-sid [ 5', not_refused, {}),                                  # same
+    ('static', R + 'bgp-prefix-sid 5', not_refused, {}),                                    # UnboundLocalError
+    ('static', R + 'bgp-prefix-sid [ 0 , [ ( 0 , -1 ) ] ]', not_refused, {}),               # struct.error
+    ('static', R + 'bgp-prefix-sid [ -1 ]', not_refused, {}),                               # struct.error
+    ('static', R + 'bgp-prefix-sid [ 4294967296 ]', not_refused, {}),                       # accepted, attribute 40 sent WITHOUT a label index
+    ('static', R + 'bgp-prefix-sid-srv6 ( l3-service 2001:db8::1 0x48 [ 1 , 2', not_refused, {}),   # Exception (not ValueError) escapes
+])
